@@ -661,6 +661,7 @@ type foCfg struct {
 	stats           bool
 	observeMut      bool
 	boxVals         bool // interface{} frontends cache the tokens inside a slice (uncomparable dynamic type)
+	noiseBackendCfg bool // a BackendConfig is passed next to Backend (documented to apply only without a Backend)
 	backendTTL      time.Duration
 }
 
@@ -786,10 +787,22 @@ func (w *world) attach() {
 	wrap := &beWrap{s: w.s, be: w.be, faultAtCall: w.faultAtCall}
 	w.wrap = wrap
 
+	// "BackendConfig is a configuration for ShardedMap cache instance if Backend is not provided":
+	// next to a Backend it configures nothing, whatever it says.
+	var noise cache.Config
+	if cfg.noiseBackendCfg {
+		noise = cache.Config{
+			TimeToLive: time.Nanosecond, ExpirationJitter: 1, CountSoftLimit: 1, EvictFraction: 0.9,
+			DeleteExpiredJobInterval: time.Second, DeleteExpiredAfter: time.Nanosecond,
+		}
+
+		c.Class("BackendConfig-next-to-Backend")
+	}
+
 	if cfg.variant >= 3 {
 		wrap.real = w.be.Raw().(cache.ReadWriter)
 		f := cache.NewFailoverOf[any](cache.FailoverConfigOf[any]{
-			Name: w.name, Backend: wrap,
+			Name: w.name, Backend: wrap, BackendConfig: noise,
 			FailedUpdateTTL: cfg.failedUpdateTTL, UpdateTTL: cfg.updateTTL, SyncUpdate: cfg.syncUpdate, SyncRead: cfg.syncRead,
 			MaxStaleness: cfg.maxStaleness, FailHard: cfg.failHard, Logger: logger, Stats: stats, ObserveMutability: cfg.observeMut,
 		}.Use)
@@ -797,7 +810,7 @@ func (w *world) attach() {
 	} else if cfg.variant == 2 {
 		real := w.be.Raw().(*cache.ShardedMapOf[string])
 		f := cache.NewFailoverOf[string](cache.FailoverConfigOf[string]{
-			Name: w.name, Backend: &beWrapOf{w: wrap, real: real},
+			Name: w.name, Backend: &beWrapOf{w: wrap, real: real}, BackendConfig: noise,
 			FailedUpdateTTL: cfg.failedUpdateTTL, UpdateTTL: cfg.updateTTL, SyncUpdate: cfg.syncUpdate, SyncRead: cfg.syncRead,
 			MaxStaleness: cfg.maxStaleness, FailHard: cfg.failHard, Logger: logger, Stats: stats, ObserveMutability: cfg.observeMut,
 		}.Use)
@@ -805,7 +818,7 @@ func (w *world) attach() {
 	} else {
 		wrap.real = w.be.Raw().(cache.ReadWriter)
 		f := cache.NewFailover(cache.FailoverConfig{
-			Name: w.name, Backend: wrap,
+			Name: w.name, Backend: wrap, BackendConfig: noise,
 			FailedUpdateTTL: cfg.failedUpdateTTL, UpdateTTL: cfg.updateTTL, SyncUpdate: cfg.syncUpdate, SyncRead: cfg.syncRead,
 			MaxStaleness: cfg.maxStaleness, FailHard: cfg.failHard, Logger: logger, Stats: stats, ObserveMutability: cfg.observeMut,
 		}.Use)
